@@ -96,6 +96,12 @@ def as_implemented(b, api, loc):
         return "(any encoder)", "as-implemented|key-collision"
     if w == "as-implemented:time-field":
         return "(decompose family)", "as-implemented|time-field"
+    if w == "as-implemented:float32-widened":
+        # alt.reflectValue hands a float32 reached through a pointer on as its float64 expansion (decompose() rounds it)
+        if api.startswith("alt.Decompose"):
+            return "(alt.Decompose)", "as-implemented|float32-widened"
+        if api.startswith("pretty.") and d["fk"] == ["ptr", "float"]:
+            return "(pretty via alt.Decompose)", "as-implemented|float32-widened"
     if w == "as-implemented:sen-bare-literal":
         return api, "as-implemented|sen-bare-literal"
     return api, loc
@@ -187,8 +193,10 @@ def gen_cases(ctx):
         raise Infra("case generation produced only %d cases" % len(cases))
     # named library types as top-level values (CreateKey / FullTypePath need a named top-level type)
     for top in ("S", "T1", "T2", "U", "V", "W", "Tagged", "Unexp", "Emb", "EmbPtr", "Simp", "PSimp", "Gen", "JM", "PJM", "TM",
-                "[]anyF", "[]anyP", "L1", "Str1", "Str2", "Col1", "Col2", "Col3", "[]float32", "map[string]float32", "float32"):
+                "[]anyF", "[]anyP", "L1", "Str1", "Str2", "Col1", "Col2", "Col3"):
         for v in ("z", "n", "e"):
+            if top.startswith("[]any") and v == "z":
+                continue          # a nil top-level slice is not a struct value (null or [] are both fine)
             cases.append({"f": [], "top": top, "v": v})
     p = os.path.join(ctx.scratch, "enc_gen_cases.ndjson")
     verif.write_ndjson(p, cases)
